@@ -290,4 +290,9 @@ theorem hostpath_groupProbed (r : Rule) (h f : Str) (q : Request) (hr : HostPath
           · simp only [List.head?_cons, Option.some.injEq] at hB; subst hB; subst hc; exact dot_not_tok
           · rw [hB] at hc0; injection hc0 with hc0; subst hc0; rw [dot_not_tok] at hc0t; cases hc0t
 
+/-- **The token buffer is as large as the property's domain says** ("requests whose URL has fewer than
+    127 tokens"): the constant is re-extracted from the source on every run, so shrinking the buffer breaks
+    this obligation. -/
+theorem token_cap_as_stated : Adb.Gen.TOKENS_MAX ≥ 127 := by decide
+
 end Adb.Net
